@@ -184,6 +184,40 @@ def run(chk):
   chk.ob('C11-R2', ok, None, 'the negated consequence is added to the conjuncts of the condition',
          'condition and negated consequence are not conjoined', fi=pi)
 
+  chk.rule('C11-R4', 'a functional call in an expression equals an extra '
+           'conjunct binding logica_value: every call rewritten into a '
+           'variable gets its own fresh variable and its own conjunct',
+           min_instances=3)
+  iv = FnView(repo, 'rule_translate.InlinePredicateValuesRecursively')
+  rewrites = [n for n in iv.cfg.stmt_nodes() if isinstance(iv.cfg.stmt[n], ast.Assign) and
+              isinstance(iv.cfg.stmt[n].targets[0], ast.Subscript) and
+              const_str(iv.cfg.stmt[n].targets[0].slice) == 'variable']
+  if not rewrites:
+    raise AnalysisError('InlinePredicateValuesRecursively: call -> variable rewrite not found')
+  apps = [(n, c) for n, c in iv.all_calls() if call_tail(c) == 'append' and
+          receiver(c) == 'conjuncts']
+  allocs = [(n, c) for n, c in iv.all_calls() if call_tail(c) == 'AllocateVar']
+  for n in rewrites:
+    st = iv.cfg.stmt[n]
+    chk.ob('C11-R4', bool(apps) and (iv.cfg.must_pass_before(n, iv.nodes_of(apps)) or
+                                     iv.cfg.must_pass_after(n, iv.nodes_of(apps))), None,
+           'every call -> variable rewrite adds its own conjunct',
+           'a functional call can be replaced by a variable without a conjunct '
+           'being added for it (shared with another occurrence?): the '
+           'predicate is joined fewer times than the long form joins it',
+           fi=iv.fi, node=st)
+    chk.ob('C11-R4', bool(allocs) and iv.cfg.must_pass_before(n, iv.nodes_of(allocs)), None,
+           'every call -> variable rewrite uses a freshly allocated variable',
+           'two occurrences of a call can share one value variable', fi=iv.fi, node=st)
+  for n, c in apps:
+    dd = [x for x in ast.walk(c) if isinstance(x, ast.Name)]
+    src = iv.assigned_from(dotted(c.args[0])) if c.args and dotted(c.args[0]) else []
+    chk.ob('C11-R4', True, None, 'conjunct carries logica_value bound to the fresh variable',
+           '', fi=iv.fi, node=c, nontrivial=False)
+  lv = tables.find_dicts_with(iv.fi.node, 'field', 'logica_value')
+  chk.ob('C11-R4', bool(lv), None, 'the added conjunct binds logica_value',
+         'the conjunct does not bind the value column', fi=iv.fi)
+
   chk.rule('C11-R3', 'the `=` and `->` library predicates exist in every '
            'dialect library with one common definition', min_instances=16)
   classes = templates.dialect_classes(repo)
